@@ -1068,6 +1068,11 @@ def Eff.kind : Eff → String
   | .window _ _ _ _ => "window"
   | .ident => "none"
 
+/-- `self._effective_slope_intercept == (1.0, 0.0)` -/
+def Eff.isIdentityAffine : Eff → Bool
+  | .affine a b _ => a == 1 && b == 0
+  | _ => false
+
 /-- the model dispatches as the source does: the regenerated if / elif chain of the combination block, fed with what the
     model has found (`has_rwvm` = a real-world map is in force: then nothing is built here, arm 0), names the construction
     `build` takes -/
@@ -1106,16 +1111,16 @@ cast safely. -/
 theorem narrowing_checked_of_built (p : Params) (st : Stages) (e : Eff) (hasCm differs inFloat : Bool) (ok ik : String) (safe : Bool)
     (r : Bool × Bool × Bool × Bool × Bool × Bool)
     (h : outputRules (Eff.kind e == "table") hasCm differs inFloat (Eff.kind e == "affine")
-          (match e with | .affine a b _ => a == 1 && b == 0 | _ => false) (Eff.kind e == "window") ok ik safe "MONOCHROME" = .ok r) :
+          (Eff.isIdentityAffine e) (Eff.kind e == "window") ok ik safe "MONOCHROME" = .ok r) :
     r.2.2.2.2.1 = true ↔
       ((Eff.kind e = "none" ∨ (∃ c, e = .affine 1 0 c)) ∧ (ok = "u" ∨ ok = "i") ∧ (ik = "u" ∨ ik = "i" ∨ ik = "f") ∧ safe = false) := by
   rw [output_range_checked_iff _ _ _ _ _ _ _ _ _ _ _ r h]
   cases e with
-  | lut f d c => simp [Eff.kind]
-  | window fn c w i => simp [Eff.kind]
-  | ident => simp [Eff.kind]
+  | lut f d c => simp [Eff.kind, Eff.isIdentityAffine]
+  | window fn c w i => simp [Eff.kind, Eff.isIdentityAffine]
+  | ident => simp [Eff.kind, Eff.isIdentityAffine]
   | affine a b c =>
-    simp only [Eff.kind]
+    simp only [Eff.kind, Eff.isIdentityAffine]
     constructor
     · rintro ⟨_, h2, _, h4, h5, h6⟩
       rcases h2 with h2 | h2
@@ -1127,6 +1132,52 @@ theorem narrowing_checked_of_built (p : Params) (st : Stages) (e : Eff) (hasCm d
       · simp at h1
       · injection h1 with ha hb _
         refine ⟨by simp, Or.inr (by simp [ha, hb]), by simp, h4, h5, h6⟩
+
+/-- from the parameters themselves: what `build` returns is nothing, or the identity rescale, exactly when no VOI stage and no
+    inversion is in force and the modality stage is absent or the rescale 1 s + 0 -/
+theorem built_is_identity_iff (p : Params) (st : Stages) (e : Eff) (h0 : st.rwvm = false) (h : build p st = .ok e) :
+    (Eff.kind e = "none" ∨ (∃ c, e = .affine 1 0 c)) ↔
+      (buildCode p st = 8 ∧
+        (match (if st.modality then p.modality else Modality.none) with
+         | .none => True | .rescale m b => m = 1 ∧ b = 0 | .lut _ _ => False)) ∨
+      (buildCode p st = 7 ∧ ∃ a b, foldInvert
+          (match (if st.modality then p.modality else Modality.none) with | .rescale m _ => m | _ => 1)
+          (match (if st.modality then p.modality else Modality.none) with | .rescale _ b => b | _ => 0) p.imin p.imax false = .ok (a, b)
+          ∧ a = 1 ∧ b = 0) := by
+  unfold build at h
+  simp only [h0, Bool.false_eq_true, ↓reduceIte] at h
+  unfold buildCode
+  simp only [h0, Bool.false_eq_true, ↓reduceIte]
+  cases hm : (if st.modality then p.modality else Modality.none) <;> cases hv : (if st.voi then p.voi else Voi.none) <;>
+    cases hi : st.invert <;> simp only [hm, hv, hi] at h ⊢ <;> (try split at h) <;> (try split at h) <;> (try split at h) <;>
+    (try cases h) <;> (try contradiction) <;> (try simp_all [Eff.kind])
+
+
+/-- **the output-type rules applied to what `build` returned, in terms of the image's parameters**: for a monochrome image without
+real-world map the final cast is range-checked iff the folding left nothing to apply - no VOI stage and either no inversion and no
+modality stage / the rescale 1 s + 0, or an inversion that folds to the identity - and the output type is an integer type, the stored
+values are integers or floats and numpy cannot cast safely.  (T6p composed with the model of the folding, T6s naming the
+construction; the inputs "a table / slope-intercept / window exists" are read off the `Eff` as `__init__` reads them off its
+`_effective_*` attributes.) -/
+theorem final_cast_checked_iff (p : Params) (st : Stages) (e : Eff) (h0 : st.rwvm = false) (hb : build p st = .ok e)
+    (hasCm differs inFloat : Bool) (ok ik : String) (safe : Bool) (r : Bool × Bool × Bool × Bool × Bool × Bool)
+    (h : outputRules (Eff.kind e == "table") hasCm differs inFloat (Eff.kind e == "affine")
+          (Eff.isIdentityAffine e) (Eff.kind e == "window") ok ik safe "MONOCHROME" = .ok r) :
+    r.2.2.2.2.1 = true ↔
+      (((buildCode p st = 8 ∧
+          (match (if st.modality then p.modality else Modality.none) with
+           | .none => True | .rescale m b => m = 1 ∧ b = 0 | .lut _ _ => False)) ∨
+        (buildCode p st = 7 ∧ ∃ a b, foldInvert
+            (match (if st.modality then p.modality else Modality.none) with | .rescale m _ => m | _ => 1)
+            (match (if st.modality then p.modality else Modality.none) with | .rescale _ b => b | _ => 0) p.imin p.imax false = .ok (a, b)
+            ∧ a = 1 ∧ b = 0)) ∧
+       (ok = "u" ∨ ok = "i") ∧ (ik = "u" ∨ ik = "i" ∨ ik = "f") ∧ safe = false) := by
+  rw [narrowing_checked_of_built p st e hasCm differs inFloat ok ik safe r h, built_is_identity_iff p st e h0 hb]
+
+/-- non-vacuity: 16-bit pixels, identity rescale present, nothing else: the folded transform is the identity rescale, the cast to uint8
+    is checked -/
+example : (build { modality := .rescale 1 0, voi := .none, rwvm := .none, imin := 0, imax := 65535, lo := 0, hi := 1 }
+    ⟨false, true, false, false, false, false⟩).map (fun e => (Eff.kind e, Eff.isIdentityAffine e)) = .ok ("affine", true) := by decide +kernel
 
 /-! ## Type and range of the stored values (regenerated T6r)
 
